@@ -1,9 +1,12 @@
 /-
-  C03 — Triangular defect in IEEE arithmetic (carrier `Float`, bit-compatible with Rust `f64`):
-  `Triangular::new(0.0, 1.0, 0.0)` is accepted, and `pdf(0.0)` evaluates `0.0/0.0 = NaN`
-  (the property demands "never NaN" and the true density there is `2/(max-min) = 2`).
-  Proved by kernel evaluation of the `Float` model (plain `decide`).
-  Since `ln_pdf = ln (pdf)` by definition (`C04.triangular_ln_pdf_def`), `ln_pdf` is NaN there too.
+  C03 — Triangular at the mode in IEEE arithmetic (carrier `Float`, bit-compatible with Rust `f64`).
+  `Triangular::new(0.0, 1.0, 0.0)` is accepted (mode = min).  Before the fix `pdf(0.0)` evaluated
+  `0.0/0.0 = NaN`; `Triangular::pdf` now has a first branch `if x == c { 2.0 / (b - a) }`, so the
+  density at `x = mode` is the true value `2/(max-min)` also when `mode = min` or `mode = max`.
+  * for EVERY carrier (hence for `Float`): `x == mode → pdf x = 2.0/(max-min)`, no 0/0 division is reached;
+  * kernel evaluation of the `Float` model (plain `decide`) at the two former 0/0 corners
+    (`mode = min`, `mode = max`): the value is exactly `2.0` (IEEE `==`), not NaN.
+    (`ln_pdf = ln (pdf)` by definition, `C04.triangular_ln_pdf_def`; `Float.log` is opaque to the kernel.)
 -/
 import Statrs.Inst.Float
 import Statrs.Gen.D_triangular
@@ -14,8 +17,33 @@ open Statrs Statrs.Gen
 theorem triangular_float_new_ok :
     Except.isOk (Triangular.new (0.0 : Float) 1.0 0.0) = true := by decide
 
-/-- and the density at `x = min = mode` is NaN -/
-theorem triangular_float_pdf_nan_counterexample :
-    (Triangular.pdf (⟨0.0, 1.0, 0.0⟩ : Triangular Float) 0.0).isNaN = true := by decide
+/-- the constructor accepts `min = 0, max = mode = 1` -/
+theorem triangular_float_new_ok_mode_eq_max :
+    Except.isOk (Triangular.new (0.0 : Float) 1.0 1.0) = true := by decide
+
+/-- every carrier: when `x == mode` the density is `2.0/(max-min)` — the quotient whose denominator
+    contains `mode-min` / `max-mode` is never evaluated (for `Float`: whenever `x` is the non-NaN mode) -/
+theorem triangular_pdf_of_beq_mode {α : Type} [Add α] [Sub α] [Mul α] [Div α] [Neg α] [LT α] [LE α] [BEq α]
+    [DecidableLT α] [DecidableLE α] [OfScientific α] [Inhabited α] [RFun α]
+    (d : Triangular α) (x : α) (hx : (x == d.f_mode) = true) :
+    Triangular.pdf d x = (2.0 : α) / (d.f_max - d.f_min) := by
+  unfold Triangular.pdf
+  simp only [if_pos hx]
+
+/-- `Float`: the density at `x = min = mode` is exactly `2/(max-min) = 2` (was NaN before the fix) -/
+theorem triangular_float_pdf_at_mode_eq_min :
+    (Triangular.pdf (⟨0.0, 1.0, 0.0⟩ : Triangular Float) 0.0 == 2.0) = true := by decide
+
+/-- `Float`: and it is not NaN -/
+theorem triangular_float_pdf_at_mode_eq_min_not_nan :
+    (Triangular.pdf (⟨0.0, 1.0, 0.0⟩ : Triangular Float) 0.0).isNaN = false := by decide
+
+/-- `Float`: the density at `x = max = mode` is exactly `2/(max-min) = 2` (the symmetric 0/0 corner) -/
+theorem triangular_float_pdf_at_mode_eq_max :
+    (Triangular.pdf (⟨0.0, 1.0, 1.0⟩ : Triangular Float) 1.0 == 2.0) = true := by decide
+
+/-- `Float`: and it is not NaN -/
+theorem triangular_float_pdf_at_mode_eq_max_not_nan :
+    (Triangular.pdf (⟨0.0, 1.0, 1.0⟩ : Triangular Float) 1.0).isNaN = false := by decide
 
 end Statrs.Props.C03
